@@ -31,9 +31,9 @@ pub fn kdf_term(k: &KdfConfig) -> String {
 /// what the model prints for a configuration read from a file
 pub fn config_read_term(c: &DatabaseConfig) -> String {
     let t = config_term(c);
-    let minor = match c.version { DatabaseVersion::KDB4(m) => m, _ => 0 };
+    let (tag, minor) = match c.version { DatabaseVersion::KDB4(m) => ("kdb4", m), DatabaseVersion::KDB3(m) => ("kdb3", m), DatabaseVersion::KDB2(m) => ("kdb2", m), DatabaseVersion::KDB(m) => ("kdb", m) };
     let rest = t[1..].splitn(2, ' ').nth(1).unwrap().to_string();
-    format!("((kdb4 {}) {}", minor, rest)
+    format!("(({} {}) {}", tag, minor, rest)
 }
 
 /// error classes, named as ocaml/h_kdbx.ml names the model's
@@ -299,6 +299,28 @@ pub fn run(args: &Args) {
             }
         }
         let s = st.unwrap();
+        // the content, decoded without the library's inner stream: protected values are decrypted in
+        // document order with the key stream KeePass derives from the inner header, the document is
+        // re-framed with no inner stream, and what the library reads from that must be the database
+        if !large || case_i % 4 == 1 {
+            match crate::legacy::reprotect(&s.xml, (s.inner_cipher, &s.inner_key), (0, &[])) {
+                None => o.violation = Some("a protected value in the saved document is not base64".into()),
+                Some((plain_xml, nprot)) => {
+                    let mut parts = crate::frame::Parts::of(&bytes, &s, &els);
+                    parts.payload = crate::frame::inner_header(&s.attachments, 0, &[0u8], 0, 0);
+                    parts.payload.extend_from_slice(&plain_xml);
+                    parts.partition = vec![usize::MAX / 2];
+                    let f2 = parts.build();
+                    let mut want = db.clone();
+                    want.config.inner_cipher_config = InnerCipherConfig::Plain;
+                    match Database::open(&mut &f2[..], DatabaseKey::new().with_password(&password)) {
+                        Ok(d) if d == want => {}
+                        Ok(d) => o.violation = Some(format!("independently decoded content ({} protected values) differs from the saved database: {}", nprot, crate::diff::first_difference(&want, &d))),
+                        Err(e) => o.violation = Some(format!("independently decoded content does not re-open: {}", open_error_class(&e))),
+                    }
+                }
+            }
+        }
 
         // ---------- framing correspondence: writer byte-exact, reader field-exact ----------
         let vd_s = slist(s.vd_order.iter().map(|(k, v)| format!("({} {})", hexatom(k), v)));
